@@ -1152,7 +1152,8 @@ Proof.
   pose proof (finish_call_err errclear_dotransform dotransform_catches s1 Ok Fw I) as [_ G].
   destruct (finish_call errclear_dotransform dotransform_catches s1 Ok) as [s2 z2] eqn:E2. simpl fst in G.
   specialize (G eq_refl). unfold finish_call in E2. inversion E2; subst. simpl.
-  eexists. f_equal. simpl in G. rewrite G. rewrite F. destruct errclear_dotransform; reflexivity.
+  eexists. f_equal.
+  all: simpl in G; rewrite G; rewrite F; destruct errclear_dotransform; reflexivity.
 Qed.
 
 (* ------------------------------------------------------------------------------------------ *)
